@@ -403,17 +403,18 @@ def intAux : AuxFns Int where
   allFinite := fun _ => true
   absPow0 := fun _ => 1
   ge := fun a b => a ≥ b
+  asg := fun v => 1 * v + 0 * v
 
 /-- `HuberGradient._call` on a non-product space with `grad = x` instead of `grad = x / gamma`
 (what the body would be if the division were skipped for `gamma == 1`): the masked assignment
 `grad[index] = …` then writes into the caller's `x`. -/
-def huberGradNoCopy {K} [Add K] [Mul K] [Div K] [OfNat K 0] [OfNat K 1] (F : Fns K) (A : AuxFns K) (P : Par K) : Stmt K :=
+def huberGradNoCopy {K} [Div K] (F : Fns K) (A : AuxFns K) (P : Par K) : Stmt K :=
   .new .nrm [.x] (fun a i => F.abs (a 0 i)) ;;
   .bind .tmp .x ;;
   .new .mask [.nrm] (fun a i => F.ofBool (A.ge (a 0 i) P.gamma)) ;;
   .set .tmp [.tmp, .x, .mask, .nrm]
     (fun a i => if F.truthy (a 2 (F.bidx i)) then a 1 i / a 3 (F.bidx i) else a 0 i) ;;
-  bridge .tmp
+  bridge A .tmp
 
 end OdlModel.C10
 
@@ -769,3 +770,38 @@ example : (run (fun _ _ => 0) (rosenFixed (1 : Int) 4) 0 0
   rw [(C10.rosenbrock_gradient_fixed_alias_safe (1 : Int) 4 (by omega) _ (fun _ _ => 0) _
     (fun _ => 0) 2 (by omega)).1]
   simp [rosenSpec, rosenInnerVal]
+
+/-! ### Round 5: both paths of the default in-place bridge (`AuxFns.asg`) -/
+
+/-- What the in-place call of a bridged gradient leaves in `x` (aliased) is the assign map `asg`
+applied entrywise to the value the out-of-place `_call(x)` returns (shown for `L1Gradient`,
+`KLGradient` without prior, `KLCrossEntCCGradient` without prior; by symbolic execution of the
+executed programs). Consequently: from 100 entries on (`asg = id`, the copy path) the in-place
+result IS the out-of-place value, and below 100 entries (`asg v = 1*v + 0*v`) it differs exactly
+where `1*v + 0*v ≠ v` — for IEEE doubles the entries ±inf (finding C10-F3 / C01-F3). Both paths are
+executed by the driver (stream aux-correspondence, space kinds with fewer than / at least 100
+entries). -/
+theorem C10.bridged_gradient_value {K : Type} [Add K] [Sub K] [Mul K] [Div K] [Neg K] [OfNat K 0]
+    [OfNat K 1] (F : Fns K) (A : AuxFns K) (P : Par K) (jk : Nat → Vec K) (m : Nat → Vec K) :
+    (run jk (auxProg F A P .gradL1) 0 0 m).mem 0 = (fun i => A.asg (F.sign (m 0 i))) ∧
+    (run jk (auxProg F A P (.gradKL false)) 0 0 m).mem 0
+      = (fun i => A.asg (1 * ((-1) * 1 / m 0 i) + 1 * 1)) ∧
+    (run jk (auxProg F A P (.gradKLCECC false)) 0 0 m).mem 0 = (fun i => A.asg (F.exp (m 0 i))) := by
+  refine ⟨?_, ?_, ?_⟩ <;>
+    simp [run, exec, auxProg, bridge, env0, Env.set, St.write, srcVals]
+
+/-- Copy path (elements with at least 100 entries): with `asg = id` the aliased in-place call of
+`L1Gradient` leaves exactly `sign(x)` — the out-of-place value, no arithmetic involved. -/
+theorem C10.bridge_copy_path_exact {K : Type} [Add K] [Sub K] [Mul K] [Div K] [Neg K] [OfNat K 0]
+    [OfNat K 1] (F : Fns K) (A : AuxFns K) (hA : ∀ v, A.asg v = v) (P : Par K)
+    (jk : Nat → Vec K) (m : Nat → Vec K) :
+    (run jk (auxProg F A P .gradL1) 0 0 m).mem 0 = fun i => F.sign (m 0 i) := by
+  rw [(C10.bridged_gradient_value F A P jk m).1]
+  funext i
+  exact hA _
+
+/-- Non-vacuity: over ℤ with the copy path, aliased `L1Gradient` at x = −7 gives −1. -/
+example : (run (fun _ _ => 0) (auxProg intFns { intAux with asg := id } intPar .gradL1) 0 0
+    (fun _ _ => -7)).mem 0 0 = -1 := by
+  rw [C10.bridge_copy_path_exact intFns _ (fun _ => rfl)]
+  simp [intFns]
